@@ -118,6 +118,7 @@ def _case():
         "description": st.one_of(st.none(), st.text("abcdefghijklmnopqrstuvwxyzABCXYZ0123456789 ._-", min_size=0, max_size=20)),
         "flags": _U32,
         "nxp": st.booleans(),
+        "via": st.sampled_from(["class", "class", "config"]),
         "history": st.lists(st.sampled_from(["export", "export", "add_export"]), min_size=1, max_size=3),
         "extra": st.lists(_command(), min_size=2, max_size=2),
     }))
@@ -188,6 +189,126 @@ def expected(cmd: dict) -> dict:
     return e
 
 
+_CFG_FAMILIES = ["lpc55s36", "mcxn947", "kw45b41z8", "rw612", "mcxw716c", "mimxrt798s", "k32w148"]
+_DB = {}
+_N = [0]
+
+
+def _family_info(family: str) -> dict:
+    """supported commands / key wrap version from the device database (own YAML walk, vf.gen.dbenum)."""
+    if not _DB:
+        from vf.gen import dbenum
+
+        _DB["db"] = dbenum.load()
+    d = _DB["db"].devices[family]
+    rev = list(d.revisions.values())[-1]
+    return rev.get("sb31", {})
+
+
+def _command_cfg(cmd: dict, wd: str, idx: int, wraps_version: int):
+    """YAML-style configuration entry of a command + the command it must turn into (None: not expressible)."""
+    c = cmd["c"]
+
+    def datafile(data: bytes) -> str:
+        fn = "data_%d.bin" % idx
+        with open(os.path.join(wd, fn), "wb") as f:
+            f.write(data)
+        return fn
+
+    if c == "erase":
+        return {"erase": {"address": hex(cmd["address"]), "size": hex(cmd["length"]), "memoryId": cmd["memory_id"]}}, cmd
+    if c in ("load", "loadCMAC", "loadHashLocking"):
+        d = {"address": hex(cmd["address"]), "file": datafile(bytes(cmd["data"])), "memoryId": hex(cmd["memory_id"])}
+        if c != "load":
+            d["authentication"] = {"loadCMAC": "cmac", "loadHashLocking": "hashlocking"}[c]
+        return {"load": d}, cmd
+    if c in ("execute", "call"):
+        return {c: {"address": cmd["address"]}}, cmd
+    if c == "programFuses":
+        words = [int.from_bytes(bytes(cmd["data"])[i : i + 4], "little") for i in range(0, len(cmd["data"]), 4)]
+        return {"programFuses": {"address": hex(cmd["address"]), "values": ",".join(hex(w) for w in words) if len(words) > 1 else words[0]}}, cmd
+    if c == "programIFR":
+        return {"programIFR": {"address": cmd["address"], "file": datafile(bytes(cmd["data"]))}}, cmd
+    if c == "copy":
+        return {"copy": {"addressFrom": hex(cmd["address"]), "addressTo": cmd["destination"], "size": hex(cmd["length"]),
+                         "memoryIdFrom": cmd["memory_id_from"], "memoryIdTo": hex(cmd["memory_id_to"])}}, cmd
+    if c == "loadKeyBlob":
+        internal = cmd["key_wrap_id"] % 2 == 0
+        wrap = {1: (16, 17), 2: (18, 19)}[wraps_version][0 if internal else 1]
+        return {"loadKeyBlob": {"offset": hex(cmd["offset"]), "wrappingKeyId": "NXP_CUST_KEK_INT_SK" if internal else "NXP_CUST_KEK_EXT_SK",
+                                "file": datafile(bytes(cmd["data"]))}}, dict(cmd, key_wrap_id=wrap)
+    if c == "configureMemory":
+        return {"configureMemory": {"configAddress": hex(cmd["address"]), "memoryId": cmd["memory_id"]}}, cmd
+    if c == "fillMemory":
+        return {"fillMemory": {"address": cmd["address"], "size": hex(cmd["length"]), "pattern": hex(cmd["pattern"])}}, cmd
+    if c == "checkFwVersion":
+        return {"checkFwVersion": {"value": cmd["value"], "counterId": {1: "nonsecure", 2: "secure", 3: "radio", 4: "snt"}[cmd["counter_id"]]}}, cmd
+    if c == "reset":
+        return {"reset": {}}, cmd
+    return None, None
+
+
+def _build_from_config(case, o: Oracle, roots, used, isk, user_data, commands, signer, pck):
+    """Build through SecureBinary31.load_from_config with files, as `nxpimage sb31 export` does. Returns (sb, commands really configured)."""
+    from spsdk.sbfile.sb31.images import SecureBinary31
+    from spsdk.utils.schema_validator import check_config
+
+    family = _CFG_FAMILIES[_CFG_FAMILIES.index(case["family"]) if case["family"] in _CFG_FAMILIES else len(case["family"]) % len(_CFG_FAMILIES)]
+    info = _family_info(family)
+    supported = set(info.get("supported_commands", []))
+    _N[0] += 1
+    wd = os.path.join(_CTX.get("work") or ".", "c05-%d-%d" % (os.getpid(), _N[0]))
+    os.makedirs(wd, exist_ok=True)
+    cfg_cmds, real = [], []
+    for i, c in enumerate(commands):
+        name = {"loadCMAC": "load", "loadHashLocking": "load"}.get(c["c"], c["c"])
+        if name not in supported:
+            continue
+        entry, eff = _command_cfg(c, wd, i, int(info.get("key_wraps_version", 1)))
+        if entry is not None:
+            cfg_cmds.append(entry)
+            real.append(eff)
+    if not cfg_cmds:
+        cfg_cmds.append({"erase": {"address": 0, "size": 4096}})
+        real.append({"c": "erase", "address": 0, "length": 4096, "memory_id": 0})
+    cbc = {"mainRootCertId": used, "useIsk": bool(isk)}
+    for i, r in enumerate(roots):
+        with open(os.path.join(wd, "root%d.pem" % i), "wb") as f:
+            f.write(K.public_pem(K.key_from_desc(r)))
+        cbc["rootCertificate%dFile" % i] = "root%d.pem" % i
+    if isk:
+        with open(os.path.join(wd, "root_key.pem"), "wb") as f:
+            f.write(K.private_pem(K.key_from_desc(roots[used])))
+        with open(os.path.join(wd, "isk.pem"), "wb") as f:
+            f.write(K.public_pem(K.key_from_desc(isk)))
+        cbc.update(mainRootCertPrivateKeyFile="root_key.pem", signingCertificateFile="isk.pem", signingCertificateConstraint=case["constraints"])
+        if user_data:
+            with open(os.path.join(wd, "isk_data.bin"), "wb") as f:
+                f.write(user_data)
+            cbc["signCertData"] = "isk_data.bin"
+    import yaml
+
+    with open(os.path.join(wd, "cert_block.yaml"), "w") as f:
+        yaml.safe_dump(cbc, f)
+    with open(os.path.join(wd, "sign_key.pem"), "wb") as f:
+        f.write(K.private_pem(K.key_from_desc(signer)))
+    cfg = {"family": family, "containerOutputFile": "out.sb3", "firmwareVersion": case["firmware_version"], "certBlock": "cert_block.yaml",
+           "signPrivateKey": "sign_key.pem", "kdkAccessRights": case["rights"], "containerConfigurationWord": hex(case["flags"]),
+           "isNxpContainer": bool(case["nxp"]), "isEncrypted": bool(case["encrypted"]), "timestamp": hex(case["timestamp"]), "commands": cfg_cmds}
+    if case["description"]:
+        cfg["description"] = case["description"]
+    if case["encrypted"]:
+        cfg["containerKeyBlobEncryptionKey"] = bytes(pck).hex()
+    with o.spsdk("config", "check_config"):
+        check_config(cfg, SecureBinary31.get_validation_schemas(family), search_paths=[wd])
+    sb = SecureBinary31.load_from_config(cfg, search_paths=[wd])
+    import shutil
+
+    shutil.rmtree(wd, ignore_errors=True)
+    return sb, real, family
+
+
+_CTX: dict = {}
 _SP = []
 
 
@@ -218,6 +339,10 @@ def _sp(desc):
     return _SP[0](PrivateKeyEcc(K.key_from_desc(desc)))
 
 
+class _Built(Exception):
+    pass
+
+
 def run_case(case, o: Oracle) -> None:
     from spsdk.crypto.keys import PublicKeyEcc
     from spsdk.sbfile.sb31.images import SecureBinary31
@@ -236,7 +361,19 @@ def run_case(case, o: Oracle) -> None:
     pck = bytes(case["pck"])
     _classify(case, o, commands, hname)
 
+    via = case.get("via", "class")
+    if via == "config" and user_data and len(user_data) % 16:
+        user_data = user_data[: len(user_data) - len(user_data) % 16]  # isk_data_alignment of the families (checked by the config path)
+    o.label("via:" + via)
     try:
+        if via == "config":
+            if len(pck) == 32 and not any(pck[:16]):
+                # a hex literal of a 256-bit key whose upper half is zero is also a valid 128-bit literal: the configuration
+                # loader tries both widths and keeps the shorter one (observation noted in DESIGN.md 9.3); keep the literal unambiguous
+                pck = b"\x80" + pck[1:]
+            sb, commands, fam = _build_from_config(case, o, roots, used, isk, user_data, commands, signer, pck)
+            o.label("cfg_family:" + fam)
+            raise _Built()
         root_pubs = [PublicKeyEcc(K.key_from_desc(r).public_key()) for r in roots]
         cb = CertBlockV21(
             root_certs=root_pubs, ca_flag=isk is None, used_root_cert=used, constraints=case["constraints"],
@@ -252,8 +389,10 @@ def run_case(case, o: Oracle) -> None:
         )
         for c in commands:
             sb.sb_commands.add_command(build_command(c))
+    except _Built:
+        pass
     except Exception as exc:  # noqa: BLE001
-        o.fail("build", "exc:%s" % type(exc).__name__, repr(exc), spsdk_frame(exc))
+        o.fail("build", "exc:%s:%s" % (via, type(exc).__name__), repr(exc), spsdk_frame(exc))
         return
 
     current = [expected(c) for c in commands]
@@ -360,4 +499,5 @@ def _classify(case, o: Oracle, commands, hname) -> None:
 
 
 def parts(ctx):
+    _CTX["work"] = ctx.work
     return [HypPart("sb31", _case(), run_case, {"quick": 1600, "thorough": 60000})]
